@@ -150,10 +150,15 @@ func Load(withTests bool, goos string) (*Program, error) {
 	for k, v := range overlay {
 		merged[k] = v
 	}
+	stageNo := 0
 	dump := func(extra map[string][]byte) {
 		if dir := os.Getenv("RS_DUMP_INLINE"); dir != "" {
+			stageNo++
 			for k, v := range extra {
 				os.WriteFile(filepath.Join(dir, strings.ReplaceAll(strings.TrimPrefix(k, srcRoot+"/"), "/", "__")), v, 0o644)
+				if os.Getenv("RS_DUMP_STAGES") != "" {
+					os.WriteFile(filepath.Join(dir, strings.ReplaceAll(strings.TrimPrefix(k, srcRoot+"/"), "/", "__")+fmt.Sprintf(".stage%d", stageNo)), v, 0o644)
+				}
 			}
 		}
 	}
@@ -206,7 +211,7 @@ func Load(withTests bool, goos string) (*Program, error) {
 		p.Normalisations = append(p.Normalisations, inotes...)
 	}
 	if os.Getenv("RS_NO_DISSOLVE") == "" && os.Getenv("RS_NO_INLINE") == "" {
-		for round := 0; round < 3; round++ {
+		for round := 0; round < 5; round++ {
 			progress := false
 			ex2, n2 := dissolveNewStructs(cur)
 			if apply(ex2, n2, "second normalisation stage") {
